@@ -313,6 +313,12 @@ theorem unsatFree_go_iff (l : List CPolicy) :
   | nil => simp [unsatFree.go]
   | cons p ps ih => simp [unsatFree.go, ih]
 
+theorem threshKPos_go_iff (l : List CPolicy) :
+    threshKPos.go l = true ↔ ∀ c ∈ l, threshKPos c = true := by
+  induction l with
+  | nil => simp [threshKPos.go]
+  | cons p ps ih => simp [threshKPos.go, ih]
+
 theorem pairEx_map_imp {α β γ} {R : β → β → Prop} {R' : γ → γ → Prop} (f : α → β) (g : α → γ) :
     ∀ (l : List α), (∀ x ∈ l, ∀ y ∈ l, R (f x) (f y) → R' (g x) (g y)) →
       PairEx R (l.map f) → PairEx R' (l.map g)
@@ -324,18 +330,65 @@ theorem pairEx_map_imp {α β γ} {R : β → β → Prop} {R' : γ → γ → P
     · exact Or.inr (pairEx_map_imp f g xs
         (fun a ha b hb => hR a (by simp [ha]) b (by simp [hb])) h)
 
-/-- soundness at one child: the selection's locks are recorded in the info -/
-def SoundAt (u : Bool) (c : CPolicy) : Prop :=
-  ∀ s ∈ selsC u c, (∀ f : Fld, f.sel s = true → f.info (timelockInfo c) = true)
-    ∧ (mixedLocks s = true → (timelockInfo c).containsCombination = true)
+theorem mixed_single (a : Atom) : mixedLocks [a] = false := by
+  cases a <;> simp [mixedLocks, Atom.isOlderHeight, Atom.isOlderTime, Atom.isAfterHeight,
+    Atom.isAfterTime, relIsHeight, absIsTime, absIsHeight]
 
-theorem sound_node (u : Bool) (k : Nat) (subs : List CPolicy)
-    (ih : ∀ c ∈ subs, SoundAt u c) :
-    ∀ s ∈ chooseK (subs.map (selsC u)) k,
-      (∀ f : Fld, f.sel s = true →
-        f.info (TimelockInfo.combineThreshold k (subs.map timelockInfo)) = true)
-      ∧ (mixedLocks s = true →
-        (TimelockInfo.combineThreshold k (subs.map timelockInfo)).containsCombination = true) := by
+
+/-! ### children without a selection do not take part -/
+
+theorem chooseK_zero' (alts : List (List (List Atom))) : chooseK alts 0 = [[]] := by
+  cases alts <;> rfl
+
+theorem chooseK_nil_head (rest : List (List (List Atom))) (k : Nat) :
+    chooseK ([] :: rest) k = chooseK rest k := by
+  cases k with
+  | zero => simp [chooseK_zero']
+  | succ k => simp [chooseK]
+
+theorem chooseK_filter (alts : List (List (List Atom))) :
+    ∀ k, chooseK alts k = chooseK (alts.filter (fun al => !al.isEmpty)) k := by
+  induction alts with
+  | nil => intro k; rfl
+  | cons al rest ih =>
+    intro k
+    cases al with
+    | nil => rw [chooseK_nil_head, ih]; simp
+    | cons x xs =>
+      simp only [List.filter_cons, List.isEmpty_cons, Bool.not_false, if_true]
+      cases k with
+      | zero => simp [chooseK_zero']
+      | succ k => simp only [chooseK, ih]
+
+theorem chooseK_short (alts : List (List (List Atom))) :
+    ∀ k, alts.length < k → chooseK alts k = [] := by
+  induction alts with
+  | nil => intro k hk; cases k with
+    | zero => omega
+    | succ k => rfl
+  | cons al rest ih =>
+    intro k hk
+    cases k with
+    | zero => simp at hk
+    | succ k =>
+      simp only [List.length_cons] at hk
+      simp [chooseK, ih (k + 1) (by omega), ih k (by omega)]
+
+/-! ### one node -/
+
+/-- the info records every lock kind / combination of the selections -/
+def SoundAt (ti : TimelockInfo) (sl : List (List Atom)) : Prop :=
+  ∀ s ∈ sl, (∀ f : Fld, f.sel s = true → f.info ti = true)
+    ∧ (mixedLocks s = true → ti.containsCombination = true)
+
+/-- everything the info records is witnessed by a selection -/
+def CompleteAt (ti : TimelockInfo) (sl : List (List Atom)) : Prop :=
+  (∀ f : Fld, f.info ti = true → ∃ s ∈ sl, f.sel s = true)
+    ∧ (ti.containsCombination = true → ∃ s ∈ sl, mixedLocks s = true)
+
+theorem sound_node (k : Nat) (subs : List CPolicy) (ti : CPolicy → TimelockInfo)
+    (S : CPolicy → List (List Atom)) (ih : ∀ c ∈ subs, SoundAt (ti c) (S c)) :
+    SoundAt (TimelockInfo.combineThreshold k (subs.map ti)) (chooseK (subs.map S) k) := by
   intro s hs
   constructor
   · intro f hf
@@ -348,168 +401,244 @@ theorem sound_node (u : Bool) (k : Nat) (subs : List CPolicy)
     rcases chooseK_comb_sound _ _ _ hs hm with ⟨al, hal, s', hs', h'⟩ | ⟨hk, hp⟩
     · obtain ⟨c, hc, rfl⟩ := List.mem_map.mp hal
       exact Or.inl ⟨_, List.mem_map.mpr ⟨c, hc, rfl⟩, (ih c hc s' hs').2 h'⟩
-    · refine Or.inr ⟨hk, pairEx_map_imp (selsC u) timelockInfo subs ?_ hp⟩
+    · refine Or.inr ⟨hk, pairEx_map_imp S ti subs ?_ hp⟩
       intro x hx y hy ⟨s1, hs1, s2, hs2, hc⟩
       obtain ⟨p, hp, h1, h2⟩ := (conf_iff _ _).mp hc
       rw [Fld.info_selInfo] at h1 h2
       exact (conf_iff _ _).mpr ⟨p, hp, (ih x hx s1 hs1).1 _ h1, (ih y hy s2 hs2).1 _ h2⟩
 
-theorem mixed_single (a : Atom) : mixedLocks [a] = false := by
-  cases a <;> simp [mixedLocks, Atom.isOlderHeight, Atom.isOlderTime, Atom.isAfterHeight,
-    Atom.isAfterTime, relIsHeight, absIsTime, absIsHeight]
-
-theorem timelockInfo_sound (u : Bool) : ∀ c, SoundAt u c := by
-  intro c
-  induction c using CPolicy.induct' with
-  | unsat =>
-    intro s hs
-    cases u <;> simp [selsC] at hs
-    subst hs
-    exact ⟨by intro f; cases f <;> simp [Fld.sel], by simp [mixedLocks]⟩
-  | trivial =>
-    intro s hs
-    simp [selsC] at hs
-    subst hs
-    exact ⟨by intro f; cases f <;> simp [Fld.sel], by simp [mixedLocks]⟩
-  | atom a =>
-    intro s hs
-    simp [selsC] at hs
-    subst hs
-    refine ⟨?_, by simp [mixed_single]⟩
-    intro f
-    cases a <;> cases f <;>
-      simp [Fld.sel, Fld.info, timelockInfo, Atom.isOlderHeight, Atom.isOlderTime,
-        Atom.isAfterHeight, Atom.isAfterTime]
-  | and subs ih =>
-    intro s hs
-    rw [selsC, selsCList_eq] at hs
-    rw [timelockInfo, timelockInfoList_eq]
-    exact sound_node u _ subs ih s hs
-  | or subs ih =>
-    intro s hs
-    rw [selsC, selsCList_eq] at hs
-    rw [timelockInfo, timelockInfoList_eq]
-    exact sound_node u _ subs ih s hs
-  | thresh k subs ih =>
-    intro s hs
-    rw [selsC, selsCList_eq] at hs
-    rw [timelockInfo, timelockInfoList_eq]
-    exact sound_node u _ subs ih s hs
-
-/-- exactness at one child (structural selections) -/
-def ExactAt (c : CPolicy) : Prop :=
-  selsC true c ≠ []
-    ∧ (∀ f : Fld, f.info (timelockInfo c) = true → ∃ s ∈ selsC true c, f.sel s = true)
-    ∧ ((timelockInfo c).containsCombination = true → ∃ s ∈ selsC true c, mixedLocks s = true)
-
-theorem exact_node (k : Nat) (subs : List CPolicy) (ih : ∀ c ∈ subs, ExactAt c)
+theorem complete_node (k : Nat) (subs : List CPolicy) (ti : CPolicy → TimelockInfo)
+    (S : CPolicy → List (List Atom)) (hne : ∀ c ∈ subs, S c ≠ [])
+    (ih : ∀ c ∈ subs, CompleteAt (ti c) (S c))
     (hk : (1 ≤ k ∧ k ≤ subs.length) ∨ (k = 0 ∧ subs = [])) :
-    chooseK (subs.map (selsC true)) k ≠ []
-    ∧ (∀ f : Fld, f.info (TimelockInfo.combineThreshold k (subs.map timelockInfo)) = true →
-        ∃ s ∈ chooseK (subs.map (selsC true)) k, f.sel s = true)
-    ∧ ((TimelockInfo.combineThreshold k (subs.map timelockInfo)).containsCombination = true →
-        ∃ s ∈ chooseK (subs.map (selsC true)) k, mixedLocks s = true) := by
+    CompleteAt (TimelockInfo.combineThreshold k (subs.map ti)) (chooseK (subs.map S) k) := by
   rcases hk with ⟨hk1, hkn⟩ | ⟨rfl, rfl⟩
-  · have hne : ∀ al ∈ subs.map (selsC true), al ≠ [] := by
+  · have hne' : ∀ al ∈ subs.map S, al ≠ [] := by
       intro al hal
       obtain ⟨c, hc, rfl⟩ := List.mem_map.mp hal
-      exact (ih c hc).1
-    have hkn' : k ≤ (subs.map (selsC true)).length := by simpa using hkn
-    refine ⟨?_, ?_, ?_⟩
-    · obtain ⟨s, hs⟩ := chooseK_nonempty _ k hne hkn'
-      exact List.ne_nil_of_mem hs
+      exact hne c hc
+    have hkn' : k ≤ (subs.map S).length := by simpa using hkn
+    refine ⟨?_, ?_⟩
     · intro f hf
       rw [Fld.info_combineThreshold, List.any_eq_true] at hf
       obtain ⟨t, ht, hft⟩ := hf
       obtain ⟨c, hc, rfl⟩ := List.mem_map.mp ht
-      obtain ⟨s', hs', h'⟩ := (ih c hc).2.1 f hft
-      exact chooseK_field_complete f.additive.mono _ k hne hk1 hkn'
+      obtain ⟨s', hs', h'⟩ := (ih c hc).1 f hft
+      exact chooseK_field_complete f.additive.mono _ k hne' hk1 hkn'
         ⟨_, List.mem_map.mpr ⟨c, hc, rfl⟩, s', hs', h'⟩
     · intro hcomb
       rcases (combineThreshold_comb _ _).mp hcomb with ⟨t, ht, hct⟩ | ⟨hk2, hp⟩
       · obtain ⟨c, hc, rfl⟩ := List.mem_map.mp ht
-        obtain ⟨s', hs', h'⟩ := (ih c hc).2.2 hct
-        exact chooseK_field_complete mono_mixed _ k hne hk1 hkn'
+        obtain ⟨s', hs', h'⟩ := (ih c hc).2 hct
+        exact chooseK_field_complete mono_mixed _ k hne' hk1 hkn'
           ⟨_, List.mem_map.mpr ⟨c, hc, rfl⟩, s', hs', h'⟩
-      · apply chooseK_comb_complete _ k hne hkn' hk2
-        refine pairEx_map_imp timelockInfo (selsC true) subs ?_ hp
+      · apply chooseK_comb_complete _ k hne' hkn' hk2
+        refine pairEx_map_imp ti S subs ?_ hp
         intro x hx y hy hc
         obtain ⟨p, hp, h1, h2⟩ := (conf_iff _ _).mp hc
-        obtain ⟨s1, hs1, h1'⟩ := (ih x hx).2.1 _ h1
-        obtain ⟨s2, hs2, h2'⟩ := (ih y hy).2.1 _ h2
+        obtain ⟨s1, hs1, h1'⟩ := (ih x hx).1 _ h1
+        obtain ⟨s2, hs2, h2'⟩ := (ih y hy).1 _ h2
         exact ⟨s1, hs1, s2, hs2, (conf_iff _ _).mpr ⟨p, hp,
           by rw [Fld.info_selInfo]; exact h1', by rw [Fld.info_selInfo]; exact h2'⟩⟩
-  · refine ⟨by simp [chooseK], ?_, ?_⟩
+  · refine ⟨?_, ?_⟩
     · intro f hf
       cases f <;> simp [TimelockInfo.combineThreshold, Fld.info] at hf
     · intro h
       simp [TimelockInfo.combineThreshold] at h
 
-theorem timelockInfo_exact : ∀ c, WFC c = true → ExactAt c := by
+/-- the satisfiable children -/
+def satSubs (subs : List CPolicy) : List CPolicy :=
+  subs.filter (fun c => (timelockInfo c).isSome)
+
+def infoD (c : CPolicy) : TimelockInfo := (timelockInfo c).getD {}
+
+theorem filterMap_infos (subs : List CPolicy) :
+    (subs.map timelockInfo).filterMap id = (satSubs subs).map infoD := by
+  induction subs with
+  | nil => rfl
+  | cons c cs ih =>
+    cases h : timelockInfo c <;>
+      simp [satSubs, List.filter_cons, h, infoD] at ih ⊢ <;> exact ih
+
+theorem filter_sels (subs : List CPolicy)
+    (hA : ∀ c ∈ subs, timelockInfo c = none ↔ selsC false c = []) :
+    (subs.map (selsC false)).filter (fun al => !al.isEmpty) = (satSubs subs).map (selsC false) := by
+  induction subs with
+  | nil => rfl
+  | cons c cs ih =>
+    have ih' := ih (fun c' hc' => hA c' (by simp [hc']))
+    have hc := hA c (by simp)
+    cases h : timelockInfo c with
+    | none =>
+      have : selsC false c = [] := hc.mp h
+      simp [satSubs, List.filter_cons, h, this] at ih' ⊢
+      exact ih'
+    | some x =>
+      have : selsC false c ≠ [] := fun hh => by rw [hc.mpr hh] at h; simp at h
+      have hne : (selsC false c).isEmpty = false := by
+        cases hs : selsC false c with
+        | nil => exact absurd hs this
+        | cons _ _ => rfl
+      simp [satSubs, List.filter_cons, h, hne] at ih' ⊢
+      exact ih'
+
+/-- the three facts about one policy: no info ⇔ no selection; the info is sound; and (for
+`k ≥ 1` thresholds) complete -/
+def Claim (c : CPolicy) : Prop :=
+  (timelockInfo c = none ↔ selsC false c = [])
+  ∧ (∀ info, timelockInfo c = some info → SoundAt info (selsC false c))
+  ∧ (threshKPos c = true → ∀ info, timelockInfo c = some info → CompleteAt info (selsC false c))
+
+theorem claim_node (k : Nat) (subs : List CPolicy) (ih : ∀ c ∈ subs, Claim c) :
+    (combineOpt k (subs.map timelockInfo) = none ↔ chooseK (subs.map (selsC false)) k = [])
+    ∧ (∀ info, combineOpt k (subs.map timelockInfo) = some info →
+        SoundAt info (chooseK (subs.map (selsC false)) k))
+    ∧ ((∀ c ∈ subs, threshKPos c = true) → (1 ≤ k ∨ (k = 0 ∧ subs = [])) →
+        ∀ info, combineOpt k (subs.map timelockInfo) = some info →
+          CompleteAt info (chooseK (subs.map (selsC false)) k)) := by
+  have hA : ∀ c ∈ subs, timelockInfo c = none ↔ selsC false c = [] := fun c hc => (ih c hc).1
+  have hsel : chooseK (subs.map (selsC false)) k = chooseK ((satSubs subs).map (selsC false)) k := by
+    rw [chooseK_filter, filter_sels subs hA]
+  have hmem : ∀ c ∈ satSubs subs, c ∈ subs ∧ timelockInfo c = some (infoD c) := by
+    intro c hc
+    simp only [satSubs, List.mem_filter] at hc
+    refine ⟨hc.1, ?_⟩
+    cases h : timelockInfo c with
+    | none => rw [h] at hc; simp at hc
+    | some x => simp [infoD, h]
+  have hne : ∀ c ∈ satSubs subs, selsC false c ≠ [] := by
+    intro c hc hh
+    obtain ⟨hc1, hc2⟩ := hmem c hc
+    rw [(hA c hc1).mpr hh] at hc2; simp at hc2
+  rw [hsel]
+  unfold combineOpt
+  simp only [filterMap_infos, List.length_map]
+  by_cases hlen : (satSubs subs).length < k
+  · simp only [hlen, if_true, true_iff]
+    refine ⟨chooseK_short _ _ (by simpa using hlen), by simp, by simp⟩
+  · simp only [hlen, if_false, Option.some.injEq]
+    have hkn : k ≤ (satSubs subs).length := by omega
+    refine ⟨?_, ?_, ?_⟩
+    · simp only [reduceCtorEq, false_iff]
+      obtain ⟨s, hs⟩ := chooseK_nonempty ((satSubs subs).map (selsC false)) k
+        (by intro al hal; obtain ⟨c, hc, rfl⟩ := List.mem_map.mp hal; exact hne c hc)
+        (by simpa using hkn)
+      exact List.ne_nil_of_mem hs
+    · intro info hinfo
+      subst hinfo
+      exact sound_node k _ infoD (selsC false)
+        (fun c hc => (ih c (hmem c hc).1).2.1 _ (hmem c hc).2)
+    · intro hkp hk info hinfo
+      subst hinfo
+      refine complete_node k _ infoD (selsC false) hne
+        (fun c hc => (ih c (hmem c hc).1).2.2 (hkp c (hmem c hc).1) _ (hmem c hc).2) ?_
+      rcases hk with hk | ⟨rfl, rfl⟩
+      · exact Or.inl ⟨hk, hkn⟩
+      · exact Or.inr ⟨rfl, rfl⟩
+
+theorem claim_all : ∀ c, Claim c := by
   intro c
   induction c using CPolicy.induct' with
   | unsat =>
-    intro _
-    refine ⟨by simp [selsC], ?_, ?_⟩
-    · intro f hf; cases f <;> simp [timelockInfo, Fld.info] at hf
-    · intro h; simp [timelockInfo] at h
+    refine ⟨by simp [timelockInfo, selsC], ?_, ?_⟩
+    · intro info h; simp [timelockInfo] at h
+    · intro _ info h; simp [timelockInfo] at h
   | trivial =>
-    intro _
-    refine ⟨by simp [selsC], ?_, ?_⟩
-    · intro f hf; cases f <;> simp [timelockInfo, Fld.info] at hf
-    · intro h; simp [timelockInfo] at h
+    refine ⟨by simp [timelockInfo, selsC], ?_, ?_⟩
+    · intro info h s hs
+      simp [timelockInfo] at h; subst h
+      simp [selsC] at hs; subst hs
+      exact ⟨by intro f; cases f <;> simp [Fld.sel], by simp [mixedLocks]⟩
+    · intro _ info h
+      simp [timelockInfo] at h; subst h
+      exact ⟨by intro f hf; cases f <;> simp [Fld.info] at hf, by simp⟩
   | atom a =>
-    intro _
-    refine ⟨by simp [selsC], ?_, ?_⟩
-    · intro f hf
-      refine ⟨[a], by simp [selsC], ?_⟩
-      cases a <;> cases f <;>
-        simp_all [Fld.sel, Fld.info, timelockInfo, Atom.isOlderHeight, Atom.isOlderTime,
+    refine ⟨by cases a <;> simp [timelockInfo, selsC], ?_, ?_⟩
+    · intro info h s hs
+      simp [selsC] at hs; subst hs
+      refine ⟨?_, by simp [mixed_single]⟩
+      intro f
+      cases a <;> simp [timelockInfo] at h <;> subst h <;> cases f <;>
+        simp [Fld.sel, Fld.info, Atom.isOlderHeight, Atom.isOlderTime,
           Atom.isAfterHeight, Atom.isAfterTime]
-    · intro h
-      cases a <;> simp [timelockInfo] at h
+    · intro _ info h
+      refine ⟨?_, ?_⟩
+      · intro f hf
+        refine ⟨[a], by simp [selsC], ?_⟩
+        cases a <;> simp [timelockInfo] at h <;> subst h <;> cases f <;>
+          simp_all [Fld.sel, Fld.info, Atom.isOlderHeight, Atom.isOlderTime,
+            Atom.isAfterHeight, Atom.isAfterTime]
+      · intro hc
+        cases a <;> simp [timelockInfo] at h <;> subst h <;> simp at hc
   | and subs ih =>
-    intro hwf
-    simp only [WFC, WFC_go_iff] at hwf
-    rw [ExactAt, selsC, selsCList_eq, timelockInfo, timelockInfoList_eq]
-    apply exact_node _ subs (fun c hc => ih c hc (hwf c hc))
+    have := claim_node subs.length subs ih
+    rw [Claim, timelockInfo, timelockInfoList_eq, selsC, selsCList_eq]
+    refine ⟨this.1, this.2.1, ?_⟩
+    intro hkp
+    simp only [threshKPos, threshKPos_go_iff] at hkp
+    apply this.2.2 hkp
     cases subs with
     | nil => exact Or.inr ⟨rfl, rfl⟩
-    | cons x xs => exact Or.inl ⟨by simp, Nat.le_refl _⟩
+    | cons _ _ => exact Or.inl (by simp)
   | or subs ih =>
-    intro hwf
-    simp only [WFC, Bool.and_eq_true, decide_eq_true_eq, WFC_go_iff] at hwf
-    rw [ExactAt, selsC, selsCList_eq, timelockInfo, timelockInfoList_eq]
-    exact exact_node _ subs (fun c hc => ih c hc (hwf.2 c hc)) (Or.inl ⟨Nat.le_refl _, hwf.1⟩)
+    have := claim_node 1 subs ih
+    rw [Claim, timelockInfo, timelockInfoList_eq, selsC, selsCList_eq]
+    refine ⟨this.1, this.2.1, ?_⟩
+    intro hkp
+    simp only [threshKPos, threshKPos_go_iff] at hkp
+    exact this.2.2 hkp (Or.inl (Nat.le_refl _))
   | thresh k subs ih =>
-    intro hwf
-    simp only [WFC, Bool.and_eq_true, decide_eq_true_eq, WFC_go_iff] at hwf
-    rw [ExactAt, selsC, selsCList_eq, timelockInfo, timelockInfoList_eq]
-    exact exact_node _ subs (fun c hc => ih c hc (hwf.2 c hc)) (Or.inl hwf.1)
+    have := claim_node k subs ih
+    rw [Claim, timelockInfo, timelockInfoList_eq, selsC, selsCList_eq]
+    refine ⟨this.1, this.2.1, ?_⟩
+    intro hkp
+    simp only [threshKPos, Bool.and_eq_true, decide_eq_true_eq, threshKPos_go_iff] at hkp
+    exact this.2.2 hkp.2 (Or.inl hkp.1)
 
-theorem selsC_unsatFree : ∀ c, unsatFree c = true → selsC false c = selsC true c := by
+/-- sound, every policy -/
+theorem checkTimelocks_sound (c : CPolicy) (h : hasMixedPath c = true) :
+    checkTimelocks c = false := by
+  obtain ⟨s, hs, hm⟩ := List.any_eq_true.mp h
+  obtain ⟨hA, hS, _⟩ := claim_all c
+  cases hi : timelockInfo c with
+  | none => rw [hA.mp hi] at hs; simp at hs
+  | some info =>
+    have := (hS info hi s hs).2 hm
+    simp [checkTimelocks, TimelockInfo.accepts, hi, this]
+
+/-- exact, every policy whose thresholds have `k ≥ 1` -/
+theorem checkTimelocks_exact (c : CPolicy) (hk : threshKPos c = true) :
+    checkTimelocks c = false ↔ hasMixedPath c = true := by
+  refine ⟨?_, checkTimelocks_sound c⟩
+  intro h
+  obtain ⟨_, _, hC⟩ := claim_all c
+  cases hi : timelockInfo c with
+  | none => simp [checkTimelocks, TimelockInfo.accepts, hi] at h
+  | some info =>
+    have hc : info.containsCombination = true := by simpa [checkTimelocks, TimelockInfo.accepts, hi] using h
+    obtain ⟨s, hs, hm⟩ := (hC hk info hi).2 hc
+    exact List.any_eq_true.mpr ⟨s, hs, hm⟩
+
+theorem WFC_threshKPos : ∀ c, WFC c = true → threshKPos c = true := by
   intro c
   induction c using CPolicy.induct' with
-  | unsat => intro h; simp [unsatFree] at h
+  | unsat => intro _; rfl
   | trivial => intro _; rfl
   | atom a => intro _; rfl
   | and subs ih =>
     intro h
-    simp only [unsatFree, unsatFree_go_iff] at h
-    rw [selsC, selsC, selsCList_eq, selsCList_eq]
-    congr 1
-    exact List.map_congr_left (fun c hc => ih c hc (h c hc))
+    simp only [WFC, WFC_go_iff] at h
+    simp only [threshKPos, threshKPos_go_iff]
+    exact fun c hc => ih c hc (h c hc)
   | or subs ih =>
     intro h
-    simp only [unsatFree, unsatFree_go_iff] at h
-    rw [selsC, selsC, selsCList_eq, selsCList_eq]
-    congr 1
-    exact List.map_congr_left (fun c hc => ih c hc (h c hc))
+    simp only [WFC, Bool.and_eq_true, WFC_go_iff] at h
+    simp only [threshKPos, threshKPos_go_iff]
+    exact fun c hc => ih c hc (h.2 c hc)
   | thresh k subs ih =>
     intro h
-    simp only [unsatFree, unsatFree_go_iff] at h
-    rw [selsC, selsC, selsCList_eq, selsCList_eq]
-    congr 1
-    exact List.map_congr_left (fun c hc => ih c hc (h c hc))
+    simp only [WFC, Bool.and_eq_true, decide_eq_true_eq, WFC_go_iff] at h
+    simp only [threshKPos, Bool.and_eq_true, decide_eq_true_eq, threshKPos_go_iff]
+    exact ⟨h.1.1, fun c hc => ih c hc (h.2 c hc)⟩
 
 end MsVerif.Pol
